@@ -2,7 +2,7 @@
 import histcheck
 
 PID = "C09"
-COMMON = ["hist", "-proj", "reporter,rewards", "-boundary", "-gov", "-jumps", "-valstatus", "-mintinit", "-maxops", "6", "-stories", "40", "-bbias", "2"]
+COMMON = ["hist", "-proj", "reporter,rewards", "-boundary", "-gov", "-jumps", "-valstatus", "-mintinit", "-maxops", "6", "-stories", "80", "-bbias", "2"]
 
 def run(tier, seed, replay):
     return histcheck.run(
